@@ -16,6 +16,7 @@ class Paths:
 
     def __init__(self, tracked):
         self.tracked = tracked
+        self.carried = []
 
     def evalc(self, test, env):
         if isinstance(test, ast.BoolOp):
@@ -30,6 +31,8 @@ class Paths:
         if isinstance(test, ast.Compare) and len(test.ops) == 1 and isinstance(test.left, ast.Name) and test.left.id in env \
                 and isinstance(test.comparators[0], ast.Constant) and test.comparators[0].value is None:
             v = env[test.left.id]
+            if v == "CARRIED":
+                self.carried.append((test.left.id, test))
             if v in ("None", "NN"):
                 isnone = v == "None"
                 if isinstance(test.ops[0], ast.Is):
@@ -68,6 +71,8 @@ class Paths:
             return self.run(rest, env, conds, effects)
         if isinstance(s, ast.Expr) and isinstance(s.value, ast.Call) and isinstance(s.value.func, ast.Attribute) and s.value.func.attr == "append":
             a = s.value.args[0]
+            if isinstance(a, ast.Name) and env.get(a.id) == "CARRIED":
+                self.carried.append((a.id, s))
             effects.append(("append", norm(s.value.func.value), env.get(a.id, "?") if isinstance(a, ast.Name) else "NN", norm(a)))
             return self.run(rest, env, conds, effects)
         if isinstance(s, (ast.For, ast.While, ast.Try, ast.With)):
@@ -103,7 +108,18 @@ def r16_1(rep, M, rid):
     tv = [x.id for x in ast.walk(loop.target) if isinstance(x, ast.Name)]
     num = tv[-1]
     P = Paths({"match", "substitution"})
-    paths = P.run(list(loop.body), {}, [], [])
+    assigned_in_body = {t.id for s2 in ast.walk(loop) if isinstance(s2, ast.Assign) for t in s2.targets if isinstance(t, ast.Name)}
+    paths = P.run(list(loop.body), {v: "CARRIED" for v in assigned_in_body}, [], [])
+    if P.carried:
+        seen_c = set()
+        for v, node in P.carried:
+            if v in seen_c:
+                continue
+            seen_c.add(v)
+            rep.violation(rid, f"get_matches: `{v}` carried between positions", f"`{v}` is used in the loop over the searched positions before it is "
+                          "(re)assigned in the same iteration: a position inherits the match / substitution of the previous position (e.g. a "
+                          "position with nothing nearby is reported as the previous substitution instead of a vacancy)", M.where(GM, node))
+        return
     rep.count("paths_of_matching_loop", len(paths))
     for env, conds, effects in paths:
         kinds = {}
